@@ -13,8 +13,8 @@ structure St where
   dict : List (Bytes × Nat) := []
 
 def mkEnv (s : St) (compress : Bool) (defl : Bytes) (infl : List (Nat × Bytes)) : Env :=
-  { routes := fun r => (s.dict.find? (fun e => e.1 == r)).map (·.2)
-    codes := fun c => (s.dict.find? (fun e => e.2 == c)).map (·.1)
+  { routes := Dict.routes s.dict
+    codes := Dict.codes s.dict
     deflate := fun _ => defl
     inflate := fun b => (infl.find? (fun e => e.1 == b.length)).map (·.2)
     compress := compress }
@@ -65,8 +65,10 @@ def step (s : St) (line : String) : St × String :=
   | some "dict" =>
     match kvHex ws "route", kvNat ws "code" with
     | some r, some c =>
-      if s.dict.any (fun e => e.1 == r) || s.dict.any (fun e => e.2 == c) then (s, "dup")
-      else ({ s with dict := s.dict ++ [(r, c)] }, "ok")
+      -- SetDictionary with a single-entry map (the harness passes routes without surrounding blanks: trim = id)
+      match setDictionary id s.dict [(r, c)] with
+      | (d', true) => ({ s with dict := d' }, "ok")
+      | (_, false) => (s, "dup")
     | _, _ => (s, "bad-op")
   | some "enc" | some "rt" =>
     match parseMsgFields ws, kvNat ws "comp", kvHex ws "defl" with
